@@ -51,8 +51,9 @@ var care = regexp.MustCompile(ca)
 
 // regexp for parsing a whole condition command in one pass, once cire has identified the
 // line as a condition: the argument list is closed by the first '>' that follows it, so
-// that the message to send may itself contain '>' (as may the quoted pattern)
-const cf = "^\\s*<\\s*\\'([^']*)\\'\\s*,\\s*([0-9]*)\\s*,\\s*([0-9hmns\\.]*)\\s*>\\s*(.*)"
+// that the message to send may itself contain '>' (as may the quoted pattern).
+// Inside the quotes a backslash escapes the next character, so \\' does not end the pattern.
+const cf = "^\\s*<\\s*\\'((?:[^'\\\\]|\\\\.)*)\\'\\s*,\\s*([0-9]*)\\s*,\\s*([0-9hmns\\.]*)\\s*>\\s*(.*)"
 
 var cfre = regexp.MustCompile(cf)
 
